@@ -9,6 +9,7 @@ import (
 	"bytes"
 	"flag"
 	"fmt"
+	"io"
 	"log"
 	"math/rand"
 	"net"
@@ -69,6 +70,7 @@ func runAcceptSeq(seq string) (obs string, problems []string) {
 	var conns []*memConn
 	expectSleep := int64(0)
 	nTemp := 0
+	nPerm := len(seq) // (rotation start depends on the sequence, so that every kind occurs at every position over the sweep)
 	for _, tok := range seq {
 		if result != "" {
 			break
@@ -143,7 +145,19 @@ func runAcceptSeq(seq string) (obs string, problems []string) {
 			}
 			nconn++
 		case 'P':
-			lis.ch <- acceptResult{err: errPermanent}
+			// kinds of permanent error, in rotation: plain, the closed-listener error (the owner closed it - NOT Shutdown), the same
+			// wrapped in *net.OpError, io.EOF: each is returned by Serve as it is
+			nPerm++
+			var perr error = errPermanent
+			switch nPerm % 4 {
+			case 1:
+				perr = net.ErrClosed
+			case 2:
+				perr = &net.OpError{Op: "accept", Net: "mem", Err: net.ErrClosed}
+			case 3:
+				perr = io.EOF
+			}
+			lis.ch <- acceptResult{err: perr}
 			lis.noteSent()
 			select {
 			case err := <-served:
